@@ -63,7 +63,7 @@ def reset_state(env=None):
     workload._plan_cache.clear()
     for k in [k for k in os.environ if k.startswith("VERIF_RUN_")]:
         del os.environ[k]
-    for k in ("VERIF_FAULTPLAN", "VERIF_ATTEMPTS", "VERIF_EVLOG", "PYDRA_HASH_CACHE"):
+    for k in ("VERIF_FAULTPLAN", "VERIF_ATTEMPTS", "VERIF_EVLOG"):
         os.environ.pop(k, None)
     for k, v in (env or {}).items():
         os.environ[k] = v
